@@ -43,6 +43,7 @@ const (
 	KMisuse         = "Misuse"
 	KMatrix         = "Matrix"
 	KCodec          = "Codec"
+	KQMisuse        = "QMisuse"
 )
 
 // API paths (Op.P).
